@@ -136,6 +136,16 @@ def bounded(check, tier, seed):
 def long_sequences(check, tier):
     """the grammar allows any number of parameters: combined sequences of 4 .. 100 parameters (resets in any position, repeats) against
     the reference SGR interpreter"""
+    s = Suite(check, "C05.block_sizes", "a plain run of n characters (n = 1015..1033, 2040..2056, 4090..4100, 8190..8194, 65534..65538: around the sizes at which "
+              "buffers are usually cut) followed by a formatted run, and the same with an escape sequence right behind it: from_str(str(f)) == f",
+              bound="<= 65538 characters")
+    for n in list(range(1015, 1034)) + list(range(2040, 2057)) + list(range(4090, 4101)) + list(range(8190, 8195)) + list(range(65534, 65539)):
+        for runs in ([["x" * n, {}], ["red", {"fg": 31}], [" tail", {}]], [["p", {"bold": True}], ["y" * n, {}], ["q", {"fg": 34, "bg": 41}]]):
+            s.case((n, len(runs[0][0])), sample=dict(n=n) if len(s.samples) < 2 else None)
+            d = roundtrip([(t, a) for t, a in runs])
+            if d:
+                s.fail("C05.roundtrip.block_size", dict(n=n, layout=[len(t) for t, _ in runs]), d[:300])
+    s.done()
     s = Suite(check, "C05.long_sequences", "one combined SGR sequence of n = 4, 5, 8, 16, 31, 32, 33, 34, 40, 64, 100 parameters drawn from the "
               "supported codes (two fixed patterns and 40 random lists per n, resets at any position): per-character formatting as an ANSI "
               "terminal shows it", bound="<= 100 parameters", exhaustive=False)
